@@ -1,19 +1,99 @@
 package main
 
 import (
+	"flag"
 	"fmt"
-	"golang.org/x/tools/go/packages"
+	"os"
+	"strings"
+
 	"golang.org/x/tools/go/ssa"
-	"golang.org/x/tools/go/ssa/ssautil"
 )
 
 func main() {
-	cfg := &packages.Config{Mode: packages.LoadAllSyntax, Dir: "/repo", BuildFlags: []string{"-tags=verif"}}
-	pkgs, err := packages.Load(cfg, "./pkg/...", "./cmd/...")
-	if err != nil {
-		panic(err)
+	if len(os.Args) < 2 {
+		fmt.Fprintln(os.Stderr, "usage: govc <check|verify|dump|replay> ...")
+		os.Exit(2)
 	}
-	prog, spkgs := ssautil.AllPackages(pkgs, ssa.GlobalDebug|ssa.InstantiateGenerics)
-	prog.Build()
-	fmt.Println(len(pkgs), len(spkgs))
+	defer cleanupScratch()
+	switch os.Args[1] {
+	case "verify":
+		cmdVerify(os.Args[2:])
+	case "check":
+		os.Exit(cmdCheck(os.Args[2:]))
+	default:
+		fmt.Fprintln(os.Stderr, "unknown command", os.Args[1])
+		os.Exit(2)
+	}
+}
+
+// govc verify [-repo dir] [-smt] fnkey...   (debug: verify single functions with safety sweep)
+func cmdVerify(args []string) {
+	fs := flag.NewFlagSet("verify", flag.ExitOnError)
+	repo := fs.String("repo", "/repo", "repository")
+	dumpSMT := fs.Bool("smt", false, "print background")
+	inline := fs.Int("inline", 2, "inline depth")
+	showAll := fs.Bool("all", false, "show discharged too")
+	fs.Parse(args)
+	e, err := loadEngine(*repo)
+	if err != nil {
+		fmt.Fprintln(os.Stderr, err)
+		os.Exit(2)
+	}
+	e.computeModSets()
+	e.fixPureModsets()
+	opts := &VCOpts{Safety: true, InlineDepth: *inline}
+	var rs []*FnResult
+	for _, k := range fs.Args() {
+		var fns []*ssa.Function
+		if strings.HasSuffix(k, "*") {
+			for _, f := range e.allFns {
+				if strings.HasPrefix(fnKey(f), strings.TrimSuffix(k, "*")) && f.Blocks != nil && f.Synthetic == "" {
+					fns = append(fns, f)
+				}
+			}
+		} else if f := e.Fn(k); f != nil {
+			fns = append(fns, f)
+		} else {
+			fmt.Fprintln(os.Stderr, "no such function", k)
+			continue
+		}
+		for _, fn := range fns {
+			r := e.verifyFn(fn, opts, nil)
+			rs = append(rs, r)
+			if *dumpSMT {
+				fmt.Println(r.Background)
+			}
+		}
+	}
+	tier := quickTier(0)
+	discharge(rs, tier)
+	for _, r := range rs {
+		coverCheck(r, tier)
+		n, d := 0, 0
+		for _, o := range r.Obls {
+			n++
+			if o.Answer == "unsat" {
+				d++
+			}
+		}
+		fmt.Printf("== %s: %d obligations, %d discharged, cover=%s, smt=%dB, solver=%.1fs\n", r.Fn, n, d, r.CoverAnswer, len(r.Background), r.SolverSecs)
+		for _, o := range r.Obls {
+			if o.Answer != "unsat" || *showAll {
+				fmt.Printf("   %-8s %-7s %s  [%s] %s\n", o.Kind, o.Answer, o.Name, o.Pos, o.Solver)
+				if o.Model != "" && *dumpSMT {
+					fmt.Println(o.Model)
+				}
+			}
+		}
+		for _, n := range r.Notes {
+			fmt.Println("   note:", n)
+		}
+		for _, n := range r.Unsupported {
+			fmt.Println("   UNSUPPORTED:", n)
+		}
+	}
+}
+
+func init() {
+	debugDumpOb = os.Getenv("GOVC_DUMP_OB")
 }
